@@ -147,10 +147,16 @@ def make_state(kind, n, seed):
         if mask.all():
             mask[0] = False
         v[mask] *= 10.0 ** r.uniform(-5, -4, size=int(mask.sum()))
+    elif kind == 'tiny2':  # amplitudes 1e-11..1e-9: outcomes with probability 1e-22..1e-18, far below float epsilon but not zero
+        v = r.normal(size=N) + 1j * r.normal(size=N)
+        mask = r.integers(0, 3, size=N) == 0
+        if mask.all():
+            mask[0] = False
+        v[mask] *= 10.0 ** r.uniform(-11, -9, size=int(mask.sum()))
     else:
         raise ValueError(kind)
     v = v.astype(np.complex128)
     return v / np.linalg.norm(v)
 
 
-STATE_KINDS = ['haar', 'real', 'product', 'product01', 'ghz', 'w', 'basis', 'sparse', 'tiny']
+STATE_KINDS = ['haar', 'real', 'product', 'product01', 'ghz', 'w', 'basis', 'sparse', 'tiny', 'tiny2']
